@@ -225,7 +225,7 @@ func devs(points []pointRec, n int) int {
 	return c
 }
 
-var gcCounter int
+var gcCounter, gcSteps int
 
 func (e *explorer) explore(prefix []int, used int) {
 	if e.timedOut || e.ndet != "" || len(e.newRacy) > 0 {
@@ -359,9 +359,15 @@ func (e *explorer) run2(prefix []int, trace, noSpin bool) (*Exec, *End, string, 
 	end.Races = x.races
 	tag, detail := check(end)
 	if e.cfg.Race {
+		// the collector is off while an execution runs (addresses identify memory);
+		// collect between executions in proportion to the work done: long
+		// (horizon-length) executions leave hundreds of MB of clocks and shadow
+		// state behind each
 		gcCounter++
-		if gcCounter%256 == 0 {
+		gcSteps += x.steps
+		if gcCounter%256 == 0 || gcSteps > 150000 {
 			runtime.GC()
+			gcSteps = 0
 		}
 	}
 	return x, end, tag, detail
